@@ -56,7 +56,7 @@ def cases(tier, seed):
     n = 480 if tier == "quick" else 9600
     for i in range(n):
         yield dict(kind="scripted", i=i)
-    m = 24 if tier == "quick" else 300
+    m = 36 if tier == "quick" else 360
     for i in range(m):
         yield dict(kind="real", i=i)
 
